@@ -19,6 +19,7 @@ type ValCfg struct {
 	NonUTF8   bool // strings may hold invalid UTF-8
 	Inf       bool // +-Inf allowed
 	TimeWide  bool // times 1678..2262 instead of 1970..2200
+	TimeFar   bool // additionally the zero time, 1066, 1600, 2300 and 9999 (no index, no JSON involved)
 	MinuteTZ  bool // whole-minute zone offsets only
 	NoTime    bool
 	MaxDepth  int  // nesting depth of containers (0 = scalars only)
@@ -61,11 +62,23 @@ var instantsWide = [][2]int64{
 	{9223372036, 0},  // near the UnixNano upper limit
 }
 
+// far-away instants: outside the UnixNano-representable range
+var instantsFar = [][2]int64{
+	{-62135596800, 0},         // time.Time{} (year 1)
+	{-28526342400, 5},         // 1066
+	{-11676096000, 0},         // 1600
+	{10413792000, 999},        // 2300
+	{253402300799, 999999999}, // 9999-12-31T23:59:59.999999999
+}
+
 func Time(cfg ValCfg) *rapid.Generator[interface{}] {
 	return rapid.Custom(func(t *rapid.T) interface{} {
 		pool := instants
 		if cfg.TimeWide && rapid.IntRange(0, 2).Draw(t, "twide") == 0 {
 			pool = instantsWide
+		}
+		if cfg.TimeFar && rapid.IntRange(0, 3).Draw(t, "tfar") == 0 {
+			pool = instantsFar
 		}
 		in := rapid.SampledFrom(pool).Draw(t, "instant")
 		sec, nsec := in[0], in[1]
@@ -226,6 +239,7 @@ type DocCfg struct {
 	PAbsent   int      // a field is absent with probability 1/PAbsent (0 = never)
 	Pad       int      // size of a "pad" string field (0 = none)
 	ExpiresAt bool     // occasionally a valid _expiresAt
+	DottedKey bool     // occasionally a top-level field whose name contains a dot ("d.k", a plain key, not a path)
 }
 
 var AllFields = []string{"x", "y", "xy", "n", "s", "t", "u"}
@@ -283,6 +297,9 @@ func Fields(cfg DocCfg, uniq int64) *rapid.Generator[cs.Doc] {
 		}
 		if cfg.Pad > 0 {
 			d["pad"] = strings.Repeat("p", cfg.Pad)
+		}
+		if cfg.DottedKey && rapid.IntRange(0, 5).Draw(t, "dotted") == 0 {
+			d["d.k"] = Scalar(cfg.Val).Draw(t, "dottedval")
 		}
 		if cfg.ExpiresAt && rapid.IntRange(0, 15).Draw(t, "exp") == 0 {
 			d["_expiresAt"] = time.Unix(7258032000, 0).UTC()
